@@ -24,7 +24,11 @@ type CLIResult struct {
 
 // runCLI runs the crs-toolchain binary built from /repo.
 func runCLI(env *Env, cwd string, stdin string, args ...string) CLIResult {
-	cmd := exec.Command(env.Bin, args...)
+	// The binary under test has no include-cycle detection: it stops when it runs out of file
+	// descriptors.  Keep that bound the same wherever the checks run (the harness itself keeps its
+	// own limit: the in-process parser never closes the files it opens).
+	shArgs := append([]string{"-c", `ulimit -n 4096 2>/dev/null; exec "$0" "$@"`, env.Bin}, args...)
+	cmd := exec.Command("/bin/sh", shArgs...)
 	cmd.Dir = cwd
 	cmd.Env = append(os.Environ(), "CI=true", "NO_COLOR=1")
 	cmd.Stdin = strings.NewReader(stdin)
